@@ -522,3 +522,24 @@ def anchored_changes(pid, src):
         if source_fingerprint(path) != base[f]:
             (changed if f in anchored else other).append(f)
     return changed, other
+
+
+import logging
+
+def quiet_debug_logging():
+    """The library is exercised with its logger at DEBUG (the most talkative documented setting, PYOMA_LOG_LEVEL=DEBUG, which also
+    enables every INFO-guarded statement) but with all output swallowed: code that only runs under `logger.isEnabledFor(DEBUG)`
+    is part of what a user can execute.  VERIF_LOG_OFF=1 restores the silent (disabled) state."""
+    if os.environ.get("VERIF_LOG_OFF") == "1":
+        logging.disable(logging.CRITICAL)
+        return
+    for name in ("pyoma2",):
+        lg = logging.getLogger(name)
+        for h in list(lg.handlers):
+            lg.removeHandler(h)
+        lg.addHandler(logging.NullHandler())
+        lg.setLevel(logging.DEBUG)
+        lg.propagate = False
+    for name in ("matplotlib", "PIL", "numba"):
+        logging.getLogger(name).setLevel(logging.ERROR)
+    logging.getLogger().setLevel(logging.ERROR)
